@@ -309,7 +309,7 @@ class Evaluator:
                 return VPy(('float-div', a.t, b.t))
         if isinstance(op, ast.Add):
             if isinstance(a, VStr) and isinstance(b, VStr):
-                return VStr(z3.Concat(a.t, b.t))
+                return VStr(self.eng.concat(st, a.t, b.t))
             if isinstance(a, VTuple) and isinstance(b, VTuple):
                 return VTuple(a.items + b.items)
             if isinstance(a, VList) and isinstance(b, VList):
